@@ -268,6 +268,9 @@ class Verdict:
         self.t0 = time.time()
         self.cov = {}
         self.notes = []
+        import glob
+        for f in glob.glob(f'{REPLAYS}/{prop}_*.json'):
+            os.remove(f)
 
     def write_replay(self, name, payload):
         os.makedirs(REPLAYS, exist_ok=True)
